@@ -208,3 +208,60 @@ def twins(chk, hscan, K):
     chk.add("traces_validated_against_impl", ok)
     chk.note(twin_scenarios=n)
     chk.sample({"twin": meta[0]})
+    fastmode_trees(chk, hscan, K)
+
+
+def fastmode_trees(chk, hscan, K):
+    """fast-scan mode must not change any verdict: random condition trees (all string operators incl. `N of set in/at`,
+    counts, offsets, loops) over buffers with SEVERAL occurrences of every string, scanned with and without the flag"""
+    import condgen
+    n = 150 if chk.tier == "quick" else 2500
+    cases, meta = [], {}
+    for i in range(n):
+        r = chk.rng.fork()
+        strs = [bytes(r.choice(b"abcxyz019") for _ in range(r.range(1, 3))) for _ in range(condgen.NSTR)]
+        names = ["r0", "r1"]
+        trees = [condgen.Gen(r.fork(), k, 3).bexpr(r.range(1, 4)) for k in range(2)]
+        decl = " ".join('$_s%d = "%s"' % (j, strs[j].decode()) for j in range(condgen.NSTR))
+        src = "".join("rule %s { strings: %s condition: %s }\n" % (names[k], decl, condgen.Printer(names).raw(t)) for k, t in enumerate(trees))
+        # aimed at the SINGLE_MATCH shortcut: strings referenced ONLY through one operator, whose first occurrence
+        # lies outside the tested range / offset and a later one inside
+        lo = r.range(4, 10)
+        aimed = r.choice(["any of them in (%d..%d)" % (lo, lo + 6), "1 of ($_s0,$_s1) in (%d..%d)" % (lo, lo + 8),
+                          "any of them at %d" % lo, "$_s0 in (%d..%d)" % (lo, lo + 6), "$_s1 at %d" % lo,
+                          "for any of them : ( $ in (%d..%d) )" % (lo, lo + 6), "#_s0 == 2", "@_s1[2] == %d" % lo,
+                          "all of them in (%d..%d)" % (lo, lo + 12)])
+        src += "rule aimed { strings: %s condition: %s }\n" % (decl, aimed)
+        size = r.choice([12, 24, 40])
+        buf = bytearray(r.choice(b" .-") for _ in range(size))
+        for s_ in strs:
+            buf[0:len(s_)] = s_ if r.chance(1, 2) else buf[0:len(s_)]       # an early occurrence before the range
+            if lo + len(s_) <= size and r.chance(2, 3):
+                buf[lo:lo + len(s_)] = s_
+        for s_ in strs:
+            for _ in range(r.range(0, 4)):        # several occurrences: the first one is often outside a tested range
+                p_ = r.below(size - len(s_) + 1)
+                buf[p_:p_ + len(s_)] = s_
+        buf = bytes(buf)
+        cases.append(("f%d" % i, ["newcompiler"] + ["defi ext%d %d" % (j, r.range(-2, 12)) for j in range(3)] +
+                      ["add " + hx(src.encode()), "getrules", "scanner 0", "scan " + hx(buf),
+                       "sflags %d" % K["SCAN_FLAGS_FAST_MODE"], "scan " + hx(buf)]))
+        meta["f%d" % i] = (src, buf)
+    out, err = vlib.run_cases(hscan, cases, timeout=3000, args=["60"])
+    okn = 0
+    for cid, _ in cases:
+        sc = [l for l in out.get(cid, []) if l.startswith("scan msgs=")]
+        if len(sc) != 2:
+            continue          # rejected at compile time
+        v0 = sorted(re.findall(r"M:default:(\w+)", sc[0]))
+        v1 = sorted(re.findall(r"M:default:(\w+)", sc[1]))
+        if v0 != v1:
+            src, buf = meta[cid]
+            chk.violation("fast-mode", "fast mode changes verdicts: normal %s, fast %s" % (v0, v1),
+                          {"rules": src, "buffer_hex": hx(buf), "normal": sc[0], "fast": sc[1],
+                           "how": "h_scan: newcompiler; defi ext0..2; add <rules>; getrules; scanner 0; scan <buf>; sflags FAST_MODE; scan <buf>"})
+        else:
+            okn += 1
+    chk.add("evaluations", n)
+    chk.add("traces_validated_against_impl", okn)
+    chk.note(fastmode_condition_trees=n)
